@@ -128,3 +128,40 @@ func MinStageInt(paths []string, key string) int {
 	}
 	return min
 }
+
+// FreshProcessRerun returns a Rerun function that executes the case in a NEW harness process (the
+// replay path of the same test binary) and reports the violations it prints. For harnesses that run many
+// executions in one process: a change under test that keeps state in a package-level variable makes
+// later executions depend on earlier ones, so only a fresh process is a faithful re-run.
+func FreshProcessRerun(property, harness, testName string) func(cj []byte) []Violation {
+	return func(cj []byte) []Violation {
+		scratch := os.Getenv("VERIF_SCRATCH")
+		if scratch == "" {
+			scratch = os.TempDir()
+		}
+		f, err := os.CreateTemp(scratch, "rerun-*.json")
+		if err != nil {
+			return nil
+		}
+		defer os.Remove(f.Name())
+		b, _ := json.Marshal(map[string]interface{}{"property": property, "harness": harness, "sig": "", "case": json.RawMessage(cj)})
+		f.Write(b)
+		f.Close()
+		cmd := exec.Command(os.Args[0], "-test.run", "^"+testName+"$", "-test.timeout", "0", "-test.count", "1")
+		cmd.Env = append(os.Environ(), "VERIF_REPLAY="+f.Name(), "VERIF_SHARD=", "VERIF_NSHARDS=", "VERIF_MERGE_EVIDENCE=")
+		out, _ := cmd.Output()
+		var vs []Violation
+		for _, ln := range strings.Split(string(out), "\n") {
+			if !strings.HasPrefix(ln, "violation sig=") {
+				continue
+			}
+			rest := strings.TrimPrefix(ln, "violation sig=")
+			sig, msg := rest, ""
+			if i := strings.Index(rest, ": "); i >= 0 {
+				sig, msg = rest[:i], rest[i+2:]
+			}
+			vs = append(vs, Violation{Sig: sig, Msg: strings.TrimSuffix(msg, "  <- the recorded violation")})
+		}
+		return vs
+	}
+}
